@@ -16,19 +16,27 @@ def mk_config(names, z0_forcing=False, nsteps=1):
     return BLDFMConfig(domain=DomainConfig(nx=5, ny=4, xmax=50.0, ymax=40.0, nz=3), towers=towers, met=met)
 
 
-def coded_results(names, nsteps, z0_forcing, three_d=False):
-    ny, nx = 4, 5
+def coded_results(names, nsteps, z0_forcing, gk=0):
+    """gk: 0 = 2-D meshgrids, 1 = 3-D output (levels listed top-down), 2 = plain coordinate vectors"""
+    ny, nx, nz = 4, 5, 3
     x = np.arange(nx) * 10.0
-    y = np.arange(ny) * 10.0
+    y = np.arange(ny) * 10.0 + 1.0
+    z = 302.0 - 100.0 * np.arange(nz)
     out = {}
     for n in names:
         series = []
         for t in range(nsteps):
-            cells = np.arange(ny * nx, dtype=float)
-            flx = (n * 10000 + t * 100 + cells).reshape(ny, nx)
+            if gk == 1:
+                cells = np.arange(nz * ny * nx, dtype=float)
+                flx = (n * 10000 + t * 100 + cells).reshape(nz, ny, nx)
+                Z, Y, X = np.meshgrid(z, y, x, indexing="ij")
+                grid = (X, Y, Z)
+            else:
+                cells = np.arange(ny * nx, dtype=float)
+                flx = (n * 10000 + t * 100 + cells).reshape(ny, nx)
+                X, Y = np.meshgrid(x, y)
+                grid = (X, Y, np.full((ny, nx), 2.5)) if gk == 0 else (x.copy(), y.copy(), np.full((ny, nx), 2.5))
             conc = -flx
-            X, Y = np.meshgrid(x, y)
-            grid = (X, Y, np.full((ny, nx), 2.5))
             series.append(dict(grid=grid, conc=conc, flx=flx, tower_name="T%d" % n, timestamp="ts%d" % (500 + t),
                                params=dict(ustar=None if z0_forcing else float(7000 + t), mol=float(8000 + t), wind_speed=float(9000 + t),
                                            wind_dir=float(9500 + t), **({"z0": 0.05} if z0_forcing else {}))))
@@ -36,9 +44,9 @@ def coded_results(names, nsteps, z0_forcing, three_d=False):
     return out
 
 
-def impl_line(names, nsteps, cfgnames, z0_forcing):
+def impl_line(names, nsteps, cfgnames, z0_forcing, gk=0):
     from bldfm.io import save_footprints_to_netcdf, load_footprints_from_netcdf
-    res = coded_results(names, nsteps, z0_forcing)
+    res = coded_results(names, nsteps, z0_forcing, gk)
     cfg = mk_config(cfgnames, z0_forcing)
     fd, path = tempfile.mkstemp(suffix=".nc", dir=os.getcwd())
     os.close(fd)
@@ -83,6 +91,8 @@ def impl_line(names, nsteps, cfgnames, z0_forcing):
         return str((v % 10000) // 100)
     out += " seltower " + " ".join(pick("tower", str(s)) for s in list(ds["tower"].values) + ["T99999"])
     out += " seltime " + " ".join(pick("time", str(s)) for s in list(ds["time"].values) + ["ts99999"])
+    out += " dims %d %d x %s y %s z %s" % (ds.sizes["time"], ds.sizes["tower"], " ".join(num(v) for v in ds["x"].values), " ".join(num(v) for v in ds["y"].values),
+                                         " ".join(num(v) for v in ds["z"].values) if "z" in ds.variables else "none")
     return out
 
 
@@ -263,8 +273,10 @@ def run(rng, tier, deep):
         nsteps = int(rng.integers(1, 5))
         cfgnames = list(names)       # driver output: result keys are the config's tower names in config order
         z0f = bool(rng.random() < 0.3)
-        lines.append("nc %d %s %d %d %s %d" % (nres, " ".join(map(str, names)), nsteps, len(cfgnames), " ".join(map(str, cfgnames)), int(z0f)))
-        impls.append(impl_line(names, nsteps, cfgnames, z0f))
+        gk = int(rng.integers(0, 3))
+        lines.append("nc %d %s %d %d %s %d %d" % (nres, " ".join(map(str, names)), nsteps, len(cfgnames), " ".join(map(str, cfgnames)), int(z0f), gk))
+        impls.append(impl_line(names, nsteps, cfgnames, z0f, gk))
+        st["branches"]["grid=%s" % ("2-D meshgrid", "3-D meshgrid, levels top-down", "coordinate vectors")[gk]] = st["branches"].get("grid=%s" % ("2-D meshgrid", "3-D meshgrid, levels top-down", "coordinate vectors")[gk], 0) + 1
         st["branches"]["shape=%dx%d" % (nres, nsteps)] = st["branches"].get("shape=%dx%d" % (nres, nsteps), 0) + 1
     outs = run_driver(lines)
     for l, i, o in zip(lines, impls, outs):
